@@ -33,7 +33,7 @@ SETTINGS = [dict(integer_positions=True, comm="prop"), dict(integer_positions=Fa
 
 def plan(tier):
     q = tier == "quick"
-    return [dict(unit="iso", n=100 if q else 2500, builds=["py", "so"], case_timeout=300),
+    return [dict(unit="iso", n=100 if q else 1000, builds=["py", "so"], case_timeout=300),
             dict(unit="hashseed", n=6 if q else 100, builds=["py", "so"], case_timeout=900, chunk=1)]
 
 
